@@ -1148,6 +1148,10 @@ func (e *Engine) evMapLen(fr *frame, mname string) *Term {
 	ph := e.newPlaceholder(BV(64))
 	e.emitOp(microOp{Kind: "mlen", Atomic: e.ev.reg.syncMap[mname], Loc: mname, Res: ph, Pos: e.posOf(fr)})
 	e.endBlock(false)
+	// a map holds at most as many keys as its universe has members (the universe is part of the registry
+	// fixpoint: a key discovered later re-runs this exploration); keeps lengths used as sizes enumerable
+	n := len(e.ev.reg.mapKeys[mname])
+	e.assume(e.tb.Cmp("<=", IntTy{64, false}, ph, e.tb.BVConst(uint64(n), 64)))
 	return ph
 }
 
